@@ -1474,10 +1474,13 @@ def sensors_battery():
                     return ret.strip()
         return None
 
+    try:
+        names = os.listdir(POWER_SUPPLY_PATH)
+    except FileNotFoundError:
+        # kernel built without power supply class: no battery
+        return None
     bats = [
-        x
-        for x in os.listdir(POWER_SUPPLY_PATH)
-        if x.startswith('BAT') or 'battery' in x.lower()
+        x for x in names if x.startswith('BAT') or 'battery' in x.lower()
     ]
     if not bats:
         return None
